@@ -75,6 +75,7 @@ type c12Case struct {
 	ReconnectAt int      `json:"reconnect_at"` // seconds after the loss (< restart time)
 	Reannounce  []int    `json:"reannounce"`
 	EORs        []c12EOR `json:"eors"`
+	SecondLoss  bool     `json:"second_loss"` // the transport fails again before End-of-RIB
 }
 
 func drawC12(t *rapid.T) c12Case {
@@ -107,6 +108,7 @@ func drawC12(t *rapid.T) c12Case {
 				c.Reannounce = append(c.Reannounce, i)
 			}
 		}
+		c.SecondLoss = rapid.IntRange(0, 3).Draw(t, "second_loss") == 0
 		order := rapid.Permutation([]bool{false, true}).Draw(t, "eor_order")
 		for i, v6 := range order {
 			c.EORs = append(c.EORs, c12EOR{V6: v6, After: rapid.SampledFrom([]int{0, 1, 5, 40}).Draw(t, fmt.Sprintf("eor%d", i))})
@@ -479,6 +481,40 @@ func runC12(t *testing.T) func(c c12Case, st *verifkit.Stats) *verifkit.Failure 
 			}
 			if f := x.verify(m, "after the re-announcements"); f != nil {
 				return f
+			}
+			if c.SecondLoss {
+				// RFC 4724 4.2: "To deal with possible consecutive restarts, a route (from the
+				// peer) previously marked as stale MUST be deleted"; what was re-announced is
+				// retained as stale again and the restart timer starts over.
+				x.sess.close()
+				n.settle()
+				t1 := n.now()
+				x.logf("second loss")
+				for i, r := range c.Routes {
+					switch {
+					case m.routes[i].present && m.routes[i].stale:
+						m.routes[i] = c12State{}
+					case m.routes[i].present && m.preserved(r.V6):
+						m.routes[i].stale = true
+					default:
+						m.routes[i] = c12State{}
+					}
+				}
+				if f := x.verify(m, "right after the second loss"); f != nil {
+					return f
+				}
+				n.advance(t1 + T - time.Second - n.now())
+				if f := x.verify(m, "one second before the second restart timer"); f != nil {
+					return f
+				}
+				n.advance(2 * time.Second)
+				m.atRestartTimer()
+				if f := x.verify(m, "one second after the second restart timer"); f != nil {
+					return f
+				}
+				st.Label("second-loss")
+				st.Nontrivial()
+				return n.stop()
 			}
 			need := map[bool]bool{}
 			for i, v6 := range []bool{false, true} {
